@@ -38,6 +38,7 @@ def gen_owner_records(rng, curie_pool, uri_pool, n):
     return out
 
 
+ROTATIONS = (("parse_uri", "compress", "is_uri"), ("is_uri", "parse_uri", "compress"), ("compress", "is_uri", "parse_uri"))
 DERIVED_SITES = ("chain", "get_subconverter", "rewire", "remap_uri", "remap_curie")
 
 
@@ -58,7 +59,7 @@ class C01Machine(Machine):
         "bulk_via_ctor", "bulk_via_epm", "bulk_via_priority", "bulk_via_reverse", "large_owner_map", "derived_view_sub", "derived_view_chain_self", "derived_view_rewire", "derived_view_remap_uri",
         "derived_view_remap_curie", "record_with_pattern", "piece_with_pattern", "records_given_as_generator", "records_given_as_iterator",
         "records_given_as_dict_values", "records_given_as_tuple", "records_given_as_map", "more_than_256_uri_prefixes",
-        "flood_of_lookups_between_deliveries", "flood_of_more_than_2048_lookups",
+        "flood_of_lookups_between_deliveries", "flood_of_more_than_2048_lookups", "flag_variants_on_miss_then_plain_again",
     ]
 
     @classmethod
@@ -132,6 +133,7 @@ class C01Machine(Machine):
         self.tainted = False
         self.delimiter_given = None
         self.n_probe_checks = 0
+        self.n_looks = 0
         self.check_every = int(config.get("check_every", 1))
         self.flood = []
         self.n_deliveries = 0
@@ -193,6 +195,12 @@ class C01Machine(Machine):
                 n_first = max(n_first, len(recs) - rng.randint(3, 40))
         elif cfg.get("large") and cfg.get("check_every", 1) >= 3 and rng.random() < 0.5:
             n_first = rng.randint(1, 4)
+        elif cfg.get("large") and rng.random() < 0.5:
+            # everything is loaded in bulk except the records that hold the SHORTEST URI prefixes, which
+            # arrive incrementally afterwards (what a structure sized at load time would not expect)
+            recs.sort(key=lambda r: -min(len(u) for u in [r["uri_prefix"], *r["uri_prefix_synonyms"]]))
+            n_first = max(1, len(recs) - rng.randint(1, 3))
+            self.shortest_last = True
         first = recs[:n_first]
         later0 = []
         if not cfg.get("huge"):
@@ -395,6 +403,17 @@ class C01Machine(Machine):
         except Exception as e:  # noqa: BLE001
             self.event("record_not_constructible")
             raise _NotARecord(type(e).__name__) from None
+
+    def _record_class_drops(self, name):
+        """Does the Record class itself drop (or refuse) ``name`` in a URI-prefix synonym list?"""
+        memo = self.__dict__.setdefault("_drops", {})
+        if name not in memo:
+            try:
+                r = self.curies.Record(prefix="zzq", uri_prefix="zzq:", uri_prefix_synonyms=[name])
+                memo[name] = name not in r.uri_prefix_synonyms
+            except Exception:  # noqa: BLE001
+                memo[name] = True
+        return memo[name]
 
     def _still_disjoint(self, objs, overlapping=False):
         """The generated owner map is strict-valid as DATA; the Record class may normalise names (case,
@@ -751,18 +770,25 @@ class C01Machine(Machine):
         conv = self.conv
         owners = self.owners
         # "registered" means: a URI prefix of a record OF THE CONVERTER. The owner map the harness keeps from
-        # what it delivered is compared with the converter's own records first; where they differ (the
-        # library made something else of a submission than the harness assumed: which names a loader makes
-        # canonical, what a validator drops - C05 / C13 matters) the lookups are judged against the records,
-        # and the schedule is no longer compared with others. Never the case on the unchanged tree.
+        # what it delivered is compared with the converter's own records first. Where the library made
+        # something else of a submission than the harness assumed (which name a loader makes canonical, a
+        # name the Record class drops from a synonym list) the lookups are judged against the records and
+        # the schedule is no longer compared with others. A delivered URI prefix that is simply MISSING from
+        # the records - and that the Record class would have kept - is a lost delivery (with a dict-shaped
+        # loader: an effect of the order of supply): then nothing is re-based and the lookups are judged
+        # against what was delivered. Never the case on the unchanged tree.
         rec_map = {}
         for r in conv.records:
             for u in [r.uri_prefix, *r.uri_prefix_synonyms]:
                 rec_map.setdefault(u, r.prefix)
         if rec_map != owners.owners:
-            self.event("owner_map_rebased_on_the_converters_records")
-            self.tainted = True
-            owners.owners = rec_map
+            lost = [u for u in owners.owners if u not in rec_map and not self._record_class_drops(u)]
+            if lost:
+                self.event("delivered_uri_prefix_missing_from_records")
+            else:
+                self.event("owner_map_rebased_on_the_converters_records")
+                self.tainted = True
+                owners.owners = rec_map
         if len(owners.owners) >= 40:
             self.probe("large_owner_map")
         if len(owners.owners) > 256:
@@ -799,17 +825,43 @@ class C01Machine(Machine):
                     self.probe("non_bmp_probe_matched")
             elif any(p[:-1] == u for p in keys if p):
                 self.probe("probe_one_short")
-            got = observe.call(conv.parse_uri, u, return_none=True)
+            # the three observables are asked in an order that rotates from one look to the next: WHICH of them
+            # meets a new state first must not matter
+            order = ROTATIONS[self.n_looks % 3]
+            raw = {}
+            for name in order:
+                if name == "parse_uri":
+                    raw[name] = observe.call(conv.parse_uri, u, return_none=True)
+                elif name == "compress":
+                    raw[name] = observe.call(conv.compress, u)
+                else:
+                    raw[name] = observe.call(conv.is_uri, u)
+            got = raw["parse_uri"]
             exp = ["ok", None if want is None else [want[0], want[1]]]
             if got != exp:
                 raise Violation(PROP, "parse_uri_mismatch", site,
-                                {"uri": u, "got": got, "expected": exp, "owners": sorted(owners.owners.items())})
-            gotc = observe.call(conv.compress, u)
+                                {"uri": u, "got": got, "expected": exp, "asked_in_order": list(order),
+                                 "owners": sorted(owners.owners.items())})
+            gotc = raw["compress"]
             expc = ["ok", None if want is None else want[0] + delim + want[1]]
             if gotc != expc:
                 raise Violation(PROP, "compress_mismatch", site,
-                                {"uri": u, "got": gotc, "expected": expc, "delimiter": delim,
+                                {"uri": u, "got": gotc, "expected": expc, "delimiter": delim, "asked_in_order": list(order),
                                  "owners": sorted(owners.owners.items())})
+            if raw["is_uri"] != ["ok", want is not None]:
+                raise Violation(PROP, "is_uri_mismatch", site,
+                                {"uri": u, "got": raw["is_uri"], "expected": want is not None, "asked_in_order": list(order)})
+            if want is None and (self.n_probe_checks % 4 == 0):
+                # on a MISS the other flag spellings are asked too (what they return is C08's business) - and
+                # then the plain questions again: asking in another mode must not change the plain answers
+                for kw in ({"passthrough": True}, {"strict": True}, {"strict": True, "passthrough": True}):
+                    observe.call(conv.compress, u, **kw)
+                observe.call(conv.parse_uri, u, strict=True)
+                again = [observe.call(conv.compress, u), observe.call(conv.is_uri, u), observe.call(conv.parse_uri, u, return_none=True)]
+                if again != [["ok", None], ["ok", False], ["ok", None]]:
+                    raise Violation(PROP, "compress_mismatch" if again[0] != ["ok", None] else ("is_uri_mismatch" if again[1] != ["ok", False] else "parse_uri_mismatch"),
+                                    site, {"uri": u, "after_asking_in_other_modes": True, "got": again, "expected": "a miss"})
+                self.probe("flag_variants_on_miss_then_plain_again")
             if want is not None and (self.n_probe_checks % 4 == 0):
                 # the same question with the other flags / spellings (values on hits only: how a miss is
                 # reported in each mode is C08's business)
@@ -829,10 +881,7 @@ class C01Machine(Machine):
                                     {"uri": u, "call": "parse_uri(strict=True)", "got": gs, "expected": exp})
                 self.probe("flag_variants_on_hit")
             self.n_probe_checks += 1
-            goti = observe.call(conv.is_uri, u)
-            if goti != ["ok", want is not None]:
-                raise Violation(PROP, "is_uri_mismatch", site,
-                                {"uri": u, "got": goti, "expected": want is not None})
+        self.n_looks += 1
 
     def finish(self):
         self._catch_up()
